@@ -219,7 +219,25 @@ def obligation_name(prop, rec, f):
     return f"{prop}.{rec.get('unit', rec['module'])}.{f['function']}.{f['kind']}"
 
 
-def finish(root, prop, tier, seed, results, wall, no_evidence=False):
+def mutation_selftest(root, prop, unit_names):
+    """thorough tier: the fixed edit list of tools/mutants.py restricted to this property's units, each applied to a scratch
+    copy of /repo's sources; every edit must give its expected outcome (1 alarm / 0 quiet / 2 undecided).  A mismatch means the
+    *machinery* lost sensitivity or became brittle: reported as UNDECIDED (exit 2), never as a violation of the property."""
+    import subprocess, sys
+    names = []
+    sys.path.insert(0, root)
+    from tools.mutants import MUTANTS
+    for m in MUTANTS:
+        if m["prop"] == prop or set(m.get("units", [])) & set(unit_names):
+            names.append(m["name"])
+    if not names:
+        return {"mutants": 0, "unexpected": 0, "lines": []}
+    r = subprocess.run([sys.executable, os.path.join(root, "tools", "mutest.py")] + names, capture_output=True, text=True)
+    lines = [l for l in r.stdout.splitlines() if l.startswith(("ok ", "BAD", "SKIP"))]
+    return {"mutants": len(lines), "unexpected": sum(1 for l in lines if not l.startswith("ok ")), "lines": [l[:160] for l in lines]}
+
+
+def finish(root, prop, tier, seed, results, wall, no_evidence=False, extra=None):
     findings, _fixed = load_known(root)
     violations, known_seen, undecided = [], [], []
     os.makedirs(os.path.join(root, "out", "replay"), exist_ok=True)
@@ -282,6 +300,7 @@ def finish(root, prop, tier, seed, results, wall, no_evidence=False):
             "solver_time_s": round(smt_s, 3),
             "units": units_ev, "samples": samples or [{"note": "no unit produced obligations"}],
             "bounded_units": bounded, "known_findings_seen": known_seen, "undecided": undecided,
+            "mutation_selftest": extra,
             "exhaustive": False,
         },
         "assumptions": sorted(set(assumptions)),
@@ -308,6 +327,8 @@ def finish(root, prop, tier, seed, results, wall, no_evidence=False):
             json.dump(payload, fh, indent=1)
         print(f"VIOLATION property={prop} replay={rp}{tail}")
         rc = 1
+    if extra and extra.get("unexpected"):
+        undecided.append({"unit": "mutation-selftest", "reason": f"{extra['unexpected']} of {extra['mutants']} fixed edits did not give the expected outcome"})
     if rc == 0 and undecided:
         for u in undecided:
             print(f"UNDECIDED property={prop} unit={u['unit']}: {u['reason'][:300]}")
